@@ -39,54 +39,66 @@ def run(ctx):
     rep = core.Report('C13', ctx.tier, EXPLANATION, ASSUMPTIONS)
     lpure.check(ctx, rep, 'R13.3')
     n_leaves = 0
-    for sn in ctx.suite_names:
+    for sn0 in ctx.suite_names:
+      # the server setup is persisted by servers whose static key is held externally, too (`ServerSetup<CS, S>` with a foreign `S`)
+      for sn, type_names in ((sn0, STATE_TYPES + MSG_TYPES), (sn0 + '-remote', ['ServerSetup'])):
         S = ctx.suite(sn)
-        for name in STATE_TYPES + MSG_TYPES:
-            tp = DECODERS[name]
-            X = Sym('x')
-            sb = S.find(tp + '::serialize')
-            ty = sb['locals'][1]['ty'].lstrip('&')
-            enc = an.ser(ctx, sn, tp, X)
-            w = core.body_loc(sb)
-            rep.ob('R13.1', '%s::serialize summarised' % name, enc is not None, '', w, sn)
-            if enc is None:
-                continue
-            d = ctx.summary(sn, tp + '::deserialize', params=[enc], honest=True)
-            oks = d.ok_paths
-            IDERR = Adt('opaque_ke::errors::ProtocolError', 'IdentityGroupElementError', [])
-            other_errs = [q for q in d.err_paths if q.payload != IDERR]
-            rep.ob('R13.1', '%s: deserialize(serialize(x)) has exactly one Ok path and fails only on an identity element' % name, len(oks) == 1 and not other_errs and d.complete,
-                   'ok=%d all=%d notes=%s; first error: %s' % (len(oks), len(d.paths), d.notes, show(d.err_paths[0].payload)[:200] if d.err_paths else '-'),
-                   where_of(d), sn)
-            if len(oks) != 1:
-                continue
-            val = oks[0].payload
-            chains = S.leaf_chains(ty)
-            rep.ob('R13.1', '%s: leaf fields enumerated from the type layout' % name, len(chains) >= 1, ty, w, sn)
-            for names, chain in chains:
-                lty = chain[-1]
-                got = lookup(val, names)
-                want = lookup(X, names)
-                fname = '.'.join(names)
-                if 'InnerEnvelopeMode' in lty:
-                    good = got is not None and got[0] == 'adt' and got[2] == 'Internal'
-                    rep.ob('R13.1', '%s.%s: the (unserialised) envelope mode is the constant Internal' % (name, fname), good, show(got), where_of(d), sn)
-                    continue
-                # the public key inside a KeyPair is recomputed from the decoded secret key (roles by type, not by field name)
-                if len(chain) >= 3 and '::KeyPair<' in chain[-3] and '::PublicKey<' in chain[-2]:
-                    kp_prefix = names[:-2]
-                    kpt = S.types.get(chain[-3])
-                    skf = [f['name'] for f in kpt['variants'][0]['fields'] if '::PublicKey<' not in f['ty']] if kpt else []
-                    sk = lookup(val, list(kp_prefix) + [skf[0], '0']) if skf else None
-                    if sk is not None:
-                        good = got == App('KeGroup::public_key', sk)
-                        n_leaves += int(good)
-                        rep.ob('R13.1', '%s.%s: public key is recomputed from the decoded secret key' % (name, fname), good, show(got)[:200], where_of(d), sn)
-                        continue
-                good = got == want
-                n_leaves += int(good)
-                rep.ob('R13.1', '%s.%s survives encode/decode' % (name, fname), good, 'decoded %s ; original %s' % (show(got)[:200], show(want)[:200]),
-                       where_of(d), sn, sample='%s.%s: %s' % (name, fname, show(got)[:80]))
+        for name0 in type_names:
+              name = name0 + ('[external key]' if sn.endswith('-remote') else '')
+              tp = DECODERS[name0]
+              X = Sym('x')
+              sb = S.find(tp + '::serialize')
+              ty = sb['locals'][1]['ty'].lstrip('&')
+              enc = an.ser(ctx, sn, tp, X)
+              w = core.body_loc(sb)
+              rep.ob('R13.1', '%s::serialize summarised' % name, enc is not None, '', w, sn)
+              if enc is None:
+                  continue
+              d = ctx.summary(sn, tp + '::deserialize', params=[enc], honest=True)
+              oks = d.ok_paths
+              IDERR = Adt('opaque_ke::errors::ProtocolError', 'IdentityGroupElementError', [])
+              other_errs = [q for q in d.err_paths if q.payload != IDERR]
+              if sn.endswith('-remote'):
+                  # an external key may fail at any call (C18); that is not a round-trip failure of the encoding
+                  other_errs = [q for q in other_errs if not any(e[0] == 'outcome' and e[2] == 'Err' and e[1][0] == 'app' and e[1][1].startswith('SecretKey::')
+                                                                 for e in q.events)]
+              rep.ob('R13.1', '%s: deserialize(serialize(x)) has exactly one Ok path and fails only on an identity element' % name, len(oks) == 1 and not other_errs and d.complete,
+                     'ok=%d all=%d notes=%s; first error: %s' % (len(oks), len(d.paths), d.notes, show(d.err_paths[0].payload)[:200] if d.err_paths else '-'),
+                     where_of(d), sn)
+              if len(oks) != 1:
+                  continue
+              val = oks[0].payload
+              chains = S.leaf_chains(ty)
+              rep.ob('R13.1', '%s: leaf fields enumerated from the type layout' % name, len(chains) >= 1, ty, w, sn)
+              for names, chain in chains:
+                  lty = chain[-1]
+                  got = lookup(val, names)
+                  want = lookup(X, names)
+                  fname = '.'.join(names)
+                  if 'InnerEnvelopeMode' in lty:
+                      good = got is not None and got[0] == 'adt' and got[2] == 'Internal'
+                      rep.ob('R13.1', '%s.%s: the (unserialised) envelope mode is the constant Internal' % (name, fname), good, show(got), where_of(d), sn)
+                      continue
+                  # the public key inside a KeyPair is recomputed from the decoded secret key (roles by type, not by field name)
+                  if len(chain) >= 3 and '::KeyPair<' in chain[-3] and '::PublicKey<' in chain[-2]:
+                      kp_prefix = names[:-2]
+                      kpt = S.types.get(chain[-3])
+                      skf = [f['name'] for f in kpt['variants'][0]['fields'] if '::PublicKey<' not in f['ty']] if kpt else []
+                      sk = lookup(val, list(kp_prefix) + [skf[0], '0']) if skf else None
+                      if sk is not None:
+                          good = got == App('KeGroup::public_key', sk)
+                          if sn.endswith('-remote'):
+                              # an external key computes its own public key
+                              good = good or got == ('fld', ('fld', ('as', App('SecretKey::public_key', lookup(val, list(kp_prefix) + [skf[0]])), 'Ok'), '0'), '0')
+                          n_leaves += int(good)
+                          rep.ob('R13.1', '%s.%s: public key is recomputed from the decoded secret key' % (name, fname), good, show(got)[:200], where_of(d), sn)
+                          continue
+                  good = got == want
+                  n_leaves += int(good)
+                  rep.ob('R13.1', '%s.%s survives encode/decode' % (name, fname), good, 'decoded %s ; original %s' % (show(got)[:200], show(want)[:200]),
+                         where_of(d), sn, sample='%s.%s: %s' % (name, fname, show(got)[:80]))
+      sn = sn0
+      if True:
         # R13.4
         for which in ('creg_finish', 'clog_finish', 'slog_finish'):
             b = api_summary(ctx, sn, which).body
